@@ -664,6 +664,18 @@ def gen_c12(rng, thorough=False):
                     r += 1
                     steps += [rand_request(rng, r, timeout=10, unit=1), tick(10)]
                 scs.append(scenario(len(scs), steps, max_timeouts=N, tag=f"c12-count-per-connection-{how}"))
+    # the timeout runs from the moment the request has been TRANSMITTED: a transport that takes the bytes late (full send
+    # buffer, flow control) delays the deadline by as much; the reply arrives just before / at / after the deadline so measured
+    for timeout in (10, 100):
+        for hold in (1, timeout // 2, timeout, 3 * timeout):
+            for offs in (-1, 0, 1):
+                st = rand_request(rng, 1, timeout=timeout, unit=1)
+                steps = [cmd("enable"), {"op": "whold", "ok": True}, st, tick(hold), {"op": "whold", "ok": False}]
+                at = timeout + offs
+                steps += [tick(at), reply(good_reply(rng, st), unit=1)]
+                st2 = rand_request(rng, 2, timeout=50, unit=1)
+                steps += [st2, reply(good_reply(rng, st2), unit=1)]
+                scs.append(scenario(len(scs), steps, tag=f"c12-deadline-from-transmission-hold{hold}{offs:+d}"))
     # a device that always answers too late: every request times out and the late reply to its predecessor (a frame that
     # is discarded, not an outcome) arrives while it waits -- the run of timeouts is still a run, the limit is reached at N
     for N in (2, 3, 5):
@@ -786,6 +798,15 @@ def gen_c06_client(rng, thorough=False):
                 scs.append(scenario(len(scs), steps, framing="rtu", tag=f"c06-client-{kind}-{len(flips)}flips"))
             steps = [cmd("enable"), dict(st)] + [peer([x]) for x in f]
             scs.append(scenario(len(scs), steps, framing="rtu", tag="c06-client-good-bytes"))
+            # the two CRC bytes exchanged
+            steps = [cmd("enable"), dict(st), peer(f[:-2] + [f[-1], f[-2]]), tick(100), cmd("new_conn"), submit(2, 3, 1, 0, 1, (), 10),
+                     reply([3, 2, 0, 1], unit=1)]
+            scs.append(scenario(len(scs), steps, framing="rtu", tag=f"c06-client-{kind}-crc-bytes-swapped"))
+            # the good reply cut in two at every offset
+            if len(f) <= 16:
+                for cut in range(1, len(f)):
+                    steps = [cmd("enable"), dict(st), peer(f[:cut]), peer(f[cut:])]
+                    scs.append(scenario(len(scs), steps, framing="rtu", tag=f"c06-client-{kind}-good-split@{cut}"))
     return scs
 
 
